@@ -14,6 +14,7 @@ import (
 	"time"
 
 	"github.com/sheerbytes/sheerbytes/internal/transfer"
+	"github.com/sheerbytes/sheerbytes/internal/verifhook"
 	"github.com/sheerbytes/sheerbytes/internal/zzverif/netsim"
 	"github.com/sheerbytes/sheerbytes/pkg/manifest"
 )
@@ -52,7 +53,7 @@ type PlanResult struct {
 	Verified  int    `json:"verified_chunk"`
 	Stats     bool   `json:"stats"`
 	EndCount  int    `json:"file_end_count"` // the frame count FileEnd announced (-1: no FileEnd seen)
-	LateFrames []int `json:"frames_after_end"` // chunk frames that arrived more than 50 ms after FileEnd had been read
+	LateFrames []int `json:"frames_after_end"` // chunk frames the sender began to write after it had begun to write FileEnd
 }
 
 func runPlan(c PlanCase) (res PlanResult) {
@@ -89,7 +90,24 @@ func runPlan(c PlanCase) (res PlanResult) {
 		streams = 1
 	}
 	var mu, wmu sync.Mutex
-	var endSeen time.Time // when the scripted receiver read FileEnd
+	// the sender's own order of events (hook points in front of a chunk frame's write and in front of the end record's write): a chunk
+	// frame begun after the end record was begun is a frame after the end record, whatever the streams do to their relative arrival
+	endBegun := false
+	verifhook.Set(func(name string, args []uint64, _ string) {
+		switch name {
+		case "send.before_file_end":
+			mu.Lock()
+			endBegun = true
+			mu.Unlock()
+		case "send.before_chunk":
+			mu.Lock()
+			if endBegun && len(args) > 1 {
+				res.LateFrames = append(res.LateFrames, int(args[1]))
+			}
+			mu.Unlock()
+		}
+	})
+	defer verifhook.Set(nil)
 	sopts := transfer.Options{ChunkSize: chunk, ParallelFiles: streams, Resume: true, ResumeVerifyTail: c.Tail, ResumeVerify: c.Verify, HashAlg: c.HashAlg}
 	sopts.ParamSource = func() transfer.RuntimeParams { return transfer.RuntimeParams{ChunkSize: chunk, ParallelFiles: streams} }
 	sopts.ResumeStatsFn = func(rel string, skipped, total, verified uint32, sz int64, cs uint32) {
@@ -130,9 +148,6 @@ func runPlan(c PlanCase) (res PlanResult) {
 			}
 			mu.Lock()
 			res.Sent = append(res.Sent, int(idx))
-			if !endSeen.IsZero() && time.Since(endSeen) > 50*time.Millisecond {
-				res.LateFrames = append(res.LateFrames, int(idx))
-			}
 			mu.Unlock()
 		}
 	}
@@ -212,7 +227,6 @@ func runPlan(c PlanCase) (res PlanResult) {
 			case transfer.FileEnd:
 				mu.Lock()
 				res.EndCount = int(x.CRC32)
-				endSeen = time.Now()
 				mu.Unlock()
 				if c.DoneDelayMs > 0 {
 					time.Sleep(time.Duration(c.DoneDelayMs) * time.Millisecond)
